@@ -36,6 +36,15 @@ pub fn mkframe(a: u16, t: u8, d: Vec<u8>, borrowed: bool) -> Frame<'static> {
         let leaked: &'static [u8] = Box::leak(d.into_boxed_slice());
         Frame::new(Address(a), MsgType(t), Data::try_new(leaked).expect("data too long"))
     } else {
+        // owned data arrives in buffers of every provenance: exactly sized, or with spare capacity left over from
+        // whatever built them (every third block, decided by its content)
+        let d = if d.iter().map(|b| *b as usize).sum::<usize>() % 3 == 1 {
+            let mut v = Vec::with_capacity(d.len() + 37);
+            v.extend_from_slice(&d);
+            v
+        } else {
+            d
+        };
         Frame::new(Address(a), MsgType(t), Data::try_new(d).expect("data too long"))
     }
 }
@@ -67,6 +76,8 @@ impl Error for ScriptError {}
 
 /// A SignBus that records what it is sent and answers from a script.
 pub struct ScriptBus {
+    /// wall-clock time the bus takes before the reply with this index (a slow line or sign), if any
+    pub slow_at: Option<(usize, std::time::Duration)>,
     pub script: VecDeque<Reply>,
     pub trace: Vec<Message<'static>>,
     pub blocked: bool,
@@ -76,7 +87,7 @@ pub struct ScriptBus {
 
 impl ScriptBus {
     pub fn new(script: Vec<Reply>) -> Self {
-        ScriptBus { script: script.into(), trace: vec![], blocked: false, calls_after_error: 0, errored: false }
+        ScriptBus { slow_at: None, script: script.into(), trace: vec![], blocked: false, calls_after_error: 0, errored: false }
     }
 }
 
@@ -86,6 +97,11 @@ impl SignBus for ScriptBus {
             self.calls_after_error += 1;
         }
         self.trace.push(own_msg(&message));
+        if let Some((i, d)) = self.slow_at {
+            if i + 1 == self.trace.len() {
+                std::thread::sleep(d);
+            }
+        }
         match self.script.pop_front() {
             None => {
                 self.blocked = true;
@@ -591,6 +607,17 @@ fn eval_case_inner(line: &str) -> String {
                 }
             }
             outs.join(" ;; ")
+        }
+        "CTD" => {
+            // CTD index millis op replies... : as CT, but the bus takes `millis` of real time before reply `index`
+            let script: Vec<Reply> = t[4..].iter().map(|s| reply_of_str(s)).collect();
+            let mut sb = ScriptBus::new(script);
+            sb.slow_at = Some((num::<usize>(t[1]), std::time::Duration::from_millis(num::<u64>(t[2]))));
+            let bus = Rc::new(RefCell::new(sb));
+            let r = run_cop(t[3], bus.clone());
+            let b = bus.borrow();
+            let trace: Vec<String> = b.trace.iter().map(str_msg).collect();
+            format!("{} => {}", trace.join(" "), str_outcome(&r, b.blocked))
         }
         "CT" => {
             if snd_unconstructible(t[1]) {
